@@ -179,14 +179,17 @@ def direction_independence(ctx, T, rng, cases):
             continue
         P = oc.fmt_pts(pts)
         olines += ['WN %s %s' % (vf.fmt_paths(oc.dbl_paths(a['sol'])), P), 'WN %s %s' % (vf.fmt_paths(oc.dbl_paths(b['sol'])), P),
-                   'FAR %s 1 %s %s' % (oc.rat(2 * tol), vf.fmt_paths(oc.dbl_paths(a['sol'])), P)]
+                   'FAR %s 1 %s %s' % (oc.rat(2 * tol), vf.fmt_paths(oc.dbl_paths(a['sol'])), P),
+                   'FAR %s 1 %s %s' % (oc.rat(2 * tol), vf.fmt_paths(oc.dbl_paths(b['sol'])), P)]
         keep.append((c, pts))
     oo = T.O(olines)
     for k, (c, pts) in enumerate(keep):
-        wa = oo[3 * k].split(); wb = oo[3 * k + 1].split(); far = oo[3 * k + 2].split()
+        wa = oo[4 * k].split(); wb = oo[4 * k + 1].split(); far = oo[4 * k + 2].split(); farb = oo[4 * k + 3].split()
         ctx.count('evaluations', len(pts))
-        for q, x, y, f in zip(pts, wa, wb, far):
-            if x != y and f == '1':
+        for q, x, y, f, f2 in zip(pts, wa, wb, far, farb):
+            # the point must be outside the tolerance band of BOTH results: a result that collapsed under rounding
+            # (|delta| near 0.5) has no boundary nearby, which must not make a point 0.7 units from the path count
+            if x != y and f == '1' and f2 == '1':
                 g = c['groups'][0]
                 oc.viol(ctx, 'offset.c07.direction-dependence.%s-end' % oc.ET[g['et']].lower(),
                               'C07: reversing the direction of the input path changes the region at (%s, %s): winding %s vs %s, farther than the '
